@@ -518,6 +518,7 @@ func runC02(c *wk.Ctx) {
 			return
 		}
 		cfg := gen.Full()
+		cfg.TypedVariants = true
 		cfg.Structs, cfg.OneOf, cfg.Refs, cfg.NestedScopes = false, false, false, false
 		shape := gen.GenScalarOrContainer(r, cfg, 2)
 		t, ok, _ := buildGuarded(shape)
